@@ -81,6 +81,39 @@ theorem wire_transaction (B : Backend σ κ γ ρ) (classify : Val → Input κ 
   rw [C04.segmentation_independent_cmdok cfg h14 hc hd cmds segs h hs hmax hok]
   exact behind_execAll B classify cmds t s
 
+/-- the machine does not look at the PATH that carried a frame (fast path, batch collector, generic
+    decoder): outside MULTI a `GET` / `SET` taken by a special path is executed at once — which is
+    what the machine does with a data command outside MULTI — and inside MULTI the special paths
+    are switched off (`!self.in_transaction` at the batching gate and at `try_fast_path`; C04's
+    model: `fastPath … inTx = .notFast`, `batchGate … ¬ inTx`) -/
+theorem behind_noPath (B : Backend σ κ γ ρ) (classify : Val → Input κ γ) (acts : List Action) :
+    ∀ (t : ConnTxn κ γ ρ) (s : σ),
+      behind B classify t s (acts.map Action.noPath) = behind B classify t s acts := by
+  induction acts with
+  | nil => intro t s; rfl
+  | cons a rest ih =>
+    intro t s
+    cases a with
+    | exec f p => simp only [List.map_cons, Action.noPath, behind]; rw [ih]
+    | dropped f => simp only [List.map_cons, Action.noPath, behind]; rw [ih]
+    | protoErr => simp only [List.map_cons, Action.noPath, behind]; rw [ih]
+    | overflow => simp only [List.map_cons, Action.noPath, behind]
+    | crash => simp only [List.map_cons, Action.noPath, behind]
+
+/-- **the same for the tree since `fix:` de38a13** (HEADER_LEN = 13, the fast path and the batch
+    collectors are ALIVE for well-formed GET / SET frames): whatever path carries a frame, for every
+    segmentation and every batching configuration the machine sees exactly the commands, one each,
+    in order -/
+theorem wire_transaction_repaired (B : Backend σ κ γ ρ) (classify : Val → Input κ γ) (cfg : Config)
+    (h13 : cfg.headerLen = 13) (hrep : cfg.repaired = true) (hg : cfg.nameGuard = true)
+    (hc : cfg.codec = codec1) (hd : 2 ≤ cfg.env.depth) (hmb : cfg.maxBuffer < 72057594037927936)
+    (cmds : List Cmd) (segs : List Bytes) (h : segs.flatten = stream cmds) (hs : Small (stream cmds))
+    (hmax : (stream cmds).length ≤ cfg.maxBuffer) (t : ConnTxn κ γ ρ) (s : σ) :
+    behind B classify t s (Conn.run cfg segs) = runF B t s (cmds.map (fun c => classify (cmdFrame c))) := by
+  rw [← behind_noPath B classify (Conn.run cfg segs) t s,
+    C04.segmentation_independent_repaired cfg h13 hrep hg hc hd hmb cmds segs h hs hmax]
+  exact behind_execAll B classify cmds t s
+
 /-- `runF` and `Txn.run` agree on inputs that are not protocol errors (the only input on which the
     pinned and the current tree differ) -/
 theorem runF_eq_run (B : Backend σ κ γ ρ) (is : List (Input κ γ)) (hp : ∀ i ∈ is, i ≠ .protoErr) :
@@ -138,11 +171,13 @@ def demoSegs : List Bytes :=
   [(stream demoCmds).take 25, ((stream demoCmds).drop 25).take 30] ++ (((stream demoCmds).drop 55).map (fun b => [b]))
 
 /-- non-vacuity of the composition: ONE byte stream, cut as above, through the read loop of the
-    current tree (`cfg14`), behind it the machine over the concrete store:
+    pinned (`cfg14`) and of the current tree (`cfgR`: live fast paths), behind it the machine over the concrete store:
     `+OK +QUEUED +QUEUED *2 +OK $1` and `k = 1` -/
 example :
     demoSegs.flatten = stream demoCmds ∧
     (behind KV.backend demoClassify ConnTxn.idle [] (Conn.run C04.cfg14 demoSegs)).2 =
+      ([(1, .str [49])], [.ok, .queued, .queued, .results [.simple .ok, .bulk (some [49])]]) ∧
+    (behind KV.backend demoClassify ConnTxn.idle [] (Conn.run C04.cfgR demoSegs)).2 =
       ([(1, .str [49])], [.ok, .queued, .queued, .results [.simple .ok, .bulk (some [49])]]) := by
   decide
 
